@@ -877,11 +877,10 @@ fn join_chunks(chunks: Vec<Chunk>, options: &FormattingOptions) -> String {
                     }
                 } else {
                     // If the line only consists of comments, move them to the 'code' column
-                    if line.len() > options.whitespace.label_margin + options.whitespace.code_margin
-                    {
-                        let (label_code, comment) = line.split_at(
-                            options.whitespace.label_margin + options.whitespace.code_margin,
-                        );
+                    // (a margin that falls inside a multi-byte character means the columns before it are not blank)
+                    let margin = options.whitespace.label_margin + options.whitespace.code_margin;
+                    if line.len() > margin && line.is_char_boundary(margin) {
+                        let (label_code, comment) = line.split_at(margin);
                         if label_code.trim().is_empty() {
                             line = format!(
                                 "{:<width$}{}",
